@@ -122,8 +122,23 @@ impl<'a, T: Transport> Transferrer<'a, T> {
                                     inode,
                                     source.path.display()
                                 );
-                                notify.notified().await;
-                                // Loop back to check if it's now Completed
+                                // Register for the notification *before* re-checking the
+                                // map: a `Notified` future receives every `notify_waiters()`
+                                // call made after its creation, so a completion (or failure)
+                                // between the check and the await cannot be missed.
+                                let notified = notify.notified();
+                                let still_in_progress = {
+                                    let map = self.hardlink_map.lock().unwrap();
+                                    matches!(
+                                        map.get(&inode),
+                                        Some(InodeState::InProgress(current))
+                                            if Arc::ptr_eq(current, &notify)
+                                    )
+                                }; // Lock dropped
+                                if still_in_progress {
+                                    notified.await;
+                                }
+                                // Loop back: Completed -> link, removed -> claim it ourselves
                                 continue;
                             }
                             None => {
@@ -145,29 +160,49 @@ impl<'a, T: Transport> Transferrer<'a, T> {
                                     dest_path.display()
                                 );
 
-                                // Copy the file
-                                let result = self.copy_file(&source.path, dest_path).await?;
+                                // Copy the file and its metadata. Errors are collected here
+                                // (instead of returning early) so the claim is always released.
+                                let copied: Result<TransferResult> = async {
+                                    // Copy the file
+                                    let result = self.copy_file(&source.path, dest_path).await?;
 
-                                // Write extended attributes if present
-                                self.write_xattrs(source, dest_path).await?;
+                                    // Write extended attributes if present
+                                    self.write_xattrs(source, dest_path).await?;
 
-                                // Write ACLs if present
-                                self.write_acls(source, dest_path).await?;
+                                    // Write ACLs if present
+                                    self.write_acls(source, dest_path).await?;
 
-                                // Write BSD flags if present (macOS only)
-                                self.write_bsd_flags(source, dest_path).await?;
+                                    // Write BSD flags if present (macOS only)
+                                    self.write_bsd_flags(source, dest_path).await?;
 
-                                // Mark as completed and notify waiters
-                                {
-                                    let mut map = self.hardlink_map.lock().unwrap();
-                                    map.insert(
-                                        inode,
-                                        InodeState::Completed(dest_path.to_path_buf()),
-                                    );
+                                    Ok(result)
                                 }
-                                notify.notify_waiters();
+                                .await;
 
-                                return Ok(Some(result));
+                                return match copied {
+                                    Ok(result) => {
+                                        // Mark as completed and notify waiters
+                                        {
+                                            let mut map = self.hardlink_map.lock().unwrap();
+                                            map.insert(
+                                                inode,
+                                                InodeState::Completed(dest_path.to_path_buf()),
+                                            );
+                                        }
+                                        notify.notify_waiters();
+                                        Ok(Some(result))
+                                    }
+                                    Err(e) => {
+                                        // Release the claim so that a waiting task can take over
+                                        // (it copies its own path), then wake every waiter.
+                                        {
+                                            let mut map = self.hardlink_map.lock().unwrap();
+                                            map.remove(&inode);
+                                        }
+                                        notify.notify_waiters();
+                                        Err(e)
+                                    }
+                                };
                             }
                         }
                     }
